@@ -98,9 +98,14 @@ func (c *context) AssignActions() bool {
 		}
 	}
 
+	if c.Errs.HasError() {
+		return false
+	}
+
 	// The generated actions of 'x*!' and 'x+!' call Discard() on every element.
+	// Every rule has a Go type at this point.
 	for _, rule := range c.ParserGrammar.Rules {
-		if RuleGenerated(rule) != generatedOneOrMoreF || c.RuleGoTypes[rule] == nil {
+		if RuleGenerated(rule) != generatedOneOrMoreF {
 			continue
 		}
 		elemType := c.RuleGoTypes[rule].(*gotypes.Slice).Elem()
